@@ -5,7 +5,8 @@
        a held message is  Complete (item x)               -- came back out of the channel layer, already wrapped
                      or   NeedsData (payload x)           -- came back from the is_closed() check, only once closed
    and in both cases sub_message_to_json turns it into `item x`, the notification of payload x, exactly once. *)
-From JV Require Import Base.Bytes Base.Dec Model.Wire Model.SinkQueue.
+From JV Require Import Base.Bytes Base.Dec Base.Utf8 Json.Json Json.JsonSer Json.JsonWf Model.Wire Model.SinkQueue.
+From JV Require Import Proofs.WireFacts.
 Local Arguments N.eqb : simpl never.
 Local Arguments ser_sub_notif : simpl never.
 Local Arguments print_N : simpl never.
@@ -40,7 +41,7 @@ Proof.
 Qed.
 
 Section Facts.
-Variables (sid : N) (me : bytes).
+Variables (sid : subid) (me : bytes).
 
 Notation item := (SinkQueue.item sid me).
 Notation to_json := (SinkQueue.to_json sid me).
@@ -341,6 +342,39 @@ Proof.
   intros c ops1 ops2 s1 r2.
   assert (Hc : closed s1 = true). { unfold s1. rewrite run_app. cbn. reflexivity. }
   split; [exact Hc|]. exact (closed_run ops2 s1 Hc).
+Qed.
+
+(* ---------- own id and method, read back off the wire ---------- *)
+(* the handler's payload: a u64 printed in decimal is one complete JSON value *)
+Lemma payload_raw x : (x <= u64_max)%N -> raw_payload (payload x).
+Proof.
+  intro Hx. change (payload x) with (ser (JNum (NPos x))). apply raw_payload_ser.
+  cbn [wf wf_num]. apply N.leb_le, Hx.
+Qed.
+
+(* any id the IdProvider can return (a u64 or a Rust string, whatever characters it holds) and the notification
+   method come back out of the notification text exactly (WireFacts.sub_notif_roundtrip) *)
+Lemma item_parses x : wf_subid sid -> utf8_valid me = true -> (x <= u64_max)%N ->
+  parse_sub_notif k_result (item x) = Some (me, sid, payload x).
+Proof.
+  intros Ws Um Hx. unfold SinkQueue.item, wrap.
+  exact (sub_notif_roundtrip me sid false (payload x) Um Ws (payload_raw x Hx)).
+Qed.
+
+Lemma notification_carries_own_id : forall c ops,
+  wf_subid sid -> utf8_valid me = true -> (forall x, In x (produced ops) -> (x <= u64_max)%N) ->
+  let r := run (init c) ops in
+  (forall f, In f (received (snd r) ++ q (fst r)) ->
+     exists x, In x (produced ops) /\ parse_sub_notif k_result f = Some (me, sid, payload x))
+  /\ (forall k j, In (k, Complete j) (held (fst r)) ->
+     exists x, In x (produced ops) /\ parse_sub_notif k_result j = Some (me, sid, payload x)).
+Proof.
+  intros c ops Ws Um Hp r.
+  destruct (wrap_idempotent c ops) as (_ & Hf & Hh). fold r in Hf, Hh. split.
+  - intros f Hin. destruct (Hf f Hin) as (x & Hx & ->). exists x. split; [exact Hx|].
+    apply item_parses; auto.
+  - intros k j Hin. destruct (Hh k (Complete j) Hin) as (x & Hx & Hj & _). exists x. split; [exact Hx|].
+    cbn [SinkQueue.to_json] in Hj. rewrite Hj. apply item_parses; auto.
 Qed.
 
 End Facts.
